@@ -252,7 +252,14 @@ def record_footprint_case(case):
     # deterministic order: windows first sorted, then indices ascending then descending (cache hits and misses)
     wins = sorted([r for r in reqs if r["kind"] == "window"], key=lambda r: (r["off"], r["len"]))
     idx = sorted([r for r in reqs if r["kind"] == "index"], key=lambda r: r["i"])
-    order = wins + idx + idx[::-1] + idx[::2]
+    # slices (forward, strided, reversed from the far end): the harness picks them, the trace specification derives
+    # the window each one needs
+    L_ = rec["len"]
+    NV = NONE
+    slices = [{"kind": "slice", "start": a, "stop": b, "step": c} for (a, b, c) in
+              [(L_ - 1, max(L_ - 3, -1) if L_ > 3 else NV, -1), (NV, NV, -1), (L_ - 1, L_ // 2, -2), (1, L_, 2),
+               (L_ // 2, NV, NV), (-2, NV, NV), (L_, L_ + 3, 1), (2, 2, NV)]]
+    order = wins + idx + idx[::-1] + idx[::2] + slices
     stream.recording = True
     impl = []
     try:
@@ -274,7 +281,7 @@ def record_footprint_case(case):
         st["fresh"] = False
     f.close()
     # the first request a file serves: some narrow requests, each on a file opened afresh (nothing indexed or cached yet)
-    narrow = [r for r in wins if r["len"] == 1] + idx
+    narrow = [r for r in wins if r["len"] == 1] + idx + slices[:3]
     hh = _h(repr(rec["shape"]), seed)
     for q in range(min(4, len(narrow))):
         r = narrow[(hh + q * 7919) % len(narrow)]
